@@ -80,6 +80,9 @@ def _glexindex(start, stop, cross_truncation=1.0):
     # last dimension.
     bound = stop.max()
     dimensions = len(start)
+    if bound <= 0:
+        # nothing below the upper bound (and the grid expansion would divide by it)
+        return numpy.zeros((0, dimensions), dtype=int)
     start = numpy.clip(start, a_min=0, a_max=None)
     dtype = numpy.uint8 if bound < 256 else numpy.uint16
     range_ = numpy.arange(bound, dtype=dtype)
